@@ -109,14 +109,38 @@ Lemma example_pipeline :
   end.
 Proof. vm_compute. split; reflexivity. Qed.
 
+(* double-quoted strings holding exactly one escape, with digits over small
+   digit sets that reach surrogate values, values above U+10FFFF and the
+   planes D8000..DFFFF (whose 7-digit prefixes read as surrogates); every cut
+   inside the escape is among the prefixes *)
+Definition dq_escape (k : N) (ds : bytes) : bytes := (34 :: 92 :: k :: ds ++ [34])%N.
+Definition escape_texts : list bytes :=
+  map (dq_escape 120) (strings_eq [48; 52; 70; 97]%N 2)        (* x: 0 4 F a *)
+  ++ map (dq_escape 117) (strings_eq [48; 68; 56; 70]%N 4)     (* u: 0 D 8 F *)
+  ++ map (dq_escape 85) (strings_eq [48; 68; 56]%N 8)          (* U: 0 D 8 *)
+  ++ map (fun ds => (34 :: 92 :: ds ++ [34])%N) (strings_eq [48; 51; 55]%N 3)   (* octal: 0 3 7 *)
+  ++ map (fun x => [34; 92; 99; x; 34]%N) [63; 64; 65; 95]%N   (* control, letter c *)
+  ++ map (fun x => [34; 92; 94; x; 34]%N) [63; 64; 65; 95]%N.  (* control, caret *)
+
+Lemma sweep_C02_escapes : forallb ok_C02 escape_texts = true.
+Proof. vm_compute. reflexivity. Qed.
+
+Definition in_sweep_C02 (s : bytes) : Prop := in_sweep s \/ In s escape_texts.
+
+Lemma sweep_prefix2 s : in_sweep_C02 s -> ok_C02 s = true.
+Proof.
+  intros [H|H]; [now apply sweep_prefix|].
+  pose proof sweep_C02_escapes as S. rewrite forallb_forall in S. exact (S s H).
+Qed.
+
 (* Prop-level reading of [ok_C02] *)
-Lemma sweep_prefix_prop s : in_sweep s -> errs_of s = Some [] -> valid s = true ->
+Lemma sweep_prefix_prop s : in_sweep_C02 s -> errs_of s = Some [] -> valid s = true ->
   forall p, In p (proper_prefixes s) ->
   exists es, errs_of p = Some es
     /\ (forall e, In e es -> e_partial e = true /\ e_from e = length p)
     /\ (es <> [] -> isSyntaxComplete p es = false).
 Proof.
-  intros Hs He Hv p Hp. pose proof (sweep_prefix s Hs) as S. unfold ok_C02 in S.
+  intros Hs He Hv p Hp. pose proof (sweep_prefix2 s Hs) as S. unfold ok_C02 in S.
   rewrite He, Hv in S. cbn [negb andb orb] in S. rewrite orb_false_r in S.
   rewrite forallb_forall in S. specialize (S p Hp).
   destruct (errs_of p) as [es|]; [|discriminate]. exists es. split; [reflexivity|].
